@@ -52,6 +52,10 @@ func genWriteOp(t *rapid.T, entries []string) E1Op {
 	default:
 		op.Sizes = []int{genSize(t)}
 	}
+	if op.Op == "ctxwrite1" || op.Op == "ctxwritev" {
+		// a context that is already done: the call may be refused (then it must contribute no bytes) or accepted
+		op.Ctx = rapid.SampledFrom([]string{"", "", "", "cancelled", "deadline"}).Draw(t, "ctxkind")
+	}
 	return op
 }
 
